@@ -25,7 +25,11 @@ var (
 	// byte (about 1 seed in 256), where btcsuite's legacy hardened
 	// derivation differs from BIP32 one level further down
 	zzSeedLegacy = []byte{0, 0, 0, 56, 0, 0, 0, 0, 0, 0, 0, 0, 0, 0, 0, 0, 0, 0, 0, 0, 0, 0, 0, 0, 0, 0, 0, 0, 0, 0, 0, 1}
-	zzFastScrypt = &ScryptOptions{N: 16, R: 8, P: 1}
+	// zzSeedLegacyPurpose: a seed whose m/84' private key has a leading zero
+	// byte: the legacy rule already departs from BIP32 at the coin-type key
+	// (found by notes/seedfind)
+	zzSeedLegacyPurpose = []byte{0, 0, 1, 0x6d, 0, 0, 0, 0, 0, 0, 0, 0, 0, 0, 0, 0, 0, 0, 0, 0, 0, 0, 0, 0, 0, 0, 0, 0, 0, 0, 0, 2}
+	zzFastScrypt        = &ScryptOptions{N: 16, R: 8, P: 1}
 )
 
 type zzMgrWorld struct {
